@@ -7,8 +7,6 @@ import (
 	"encoding/json"
 	"fmt"
 	"os"
-	"runtime"
-	"strings"
 	"sync/atomic"
 	"time"
 
